@@ -34,6 +34,8 @@ ASSUMPTIONS = [
     "edit constants come from a finite alphabet chosen so that no singular boundary condition is reachable",
 ]
 DT = 0.125
+SCOPE = ("all operation histories up to the depth bound over the finite menu (merged by canonical key); the frontier does "
+         "not close at this depth - longer histories are not covered")
 
 
 def bounds(tier):
